@@ -7,6 +7,8 @@ import HumphreyModel.Driver.C17
 import HumphreyModel.Driver.C16
 import HumphreyModel.Driver.C10
 import HumphreyModel.Driver.C15
+import HumphreyModel.Driver.C08
+import HumphreyModel.Driver.C13
 
 /-!
 Line-protocol driver. Each input line: `fn <TAB> arg… <TAB> impl-output`.
@@ -17,7 +19,7 @@ One `dispatch` per property lives in `HumphreyModel/Driver/Cxx.lean`.
 open Humphrey Humphrey.Driver
 
 def dispatchers : List (String → List String → String → Option Verdict) :=
-  [ C02.dispatch, C05.dispatch, C07.dispatch, C18a.dispatch, C17.dispatch, C16.dispatch, C10.dispatch, C15.dispatch ]
+  [ C02.dispatch, C05.dispatch, C07.dispatch, C18a.dispatch, C17.dispatch, C16.dispatch, C10.dispatch, C15.dispatch, C08.dispatch, C13.dispatch ]
 
 def dispatch (fn : String) (args : List String) (impl : String) : Verdict :=
   match dispatchers.findSome? (fun d => d fn args impl) with
